@@ -472,7 +472,7 @@ def main():
             violations.append(dict(m, clause='polygon_form_carries_ring',
                                    detail=f'to_polygon/linear_rings outline differs from bounding_coords (k={k})'))
         # interval tie on a few boundary indices
-        if si < n_shapes_k and len(pts) in (k + 1, 2 * k + 3):
+        if si < n_shapes_k and len(pts) == (2 * k + 3 if kind == 'wedge' else k + 1):
             for i in sorted({0, k, k // 3, (2 * k) // 3 + 1 if k > 2 else 1}):
                 if i > k:
                     continue
